@@ -297,6 +297,62 @@ func runYield(c *Ctx, r *Reporter) {
 				"an iteration of this loop can complete without any call that is guaranteed to reach eval: no stop test and no yield on that path")
 		}
 	}
+	// Y2b: a built-in runs its platform effect without passing through eval. Its arguments do pass through eval, and
+	// one of them (read, sleep) may hand control to the platform, which can raise the stop flag meanwhile. So the
+	// call of the built-in's implementation is dominated by the clear edge of a stop test that comes after the
+	// evaluation of the arguments.
+	for _, fn := range ei.funcs {
+		k := 0
+		for _, b := range fn.Blocks {
+			for _, ins := range b.Instrs {
+				call, ok := ins.(*ssa.Call)
+				if !ok || call.Call.IsInvoke() || call.Call.StaticCallee() != nil {
+					continue
+				}
+				if !loadsField(call.Call.Value, "Func") { // builtin.Func(scope, args)
+					continue
+				}
+				k++
+				construct := fmt.Sprintf("%s#builtin-call[%d]:stop-test-after-arguments", ssaQName(fn), k)
+				// the last call that can reach eval and dominates this call
+				var lastEval *ssa.Call
+				for _, b2 := range fn.Blocks {
+					for _, i2 := range b2.Instrs {
+						c2, ok := i2.(*ssa.Call)
+						if !ok || c2 == call {
+							continue
+						}
+						if sc := c2.Call.StaticCallee(); sc != nil && ei.reach[sc] && instrDominates(c2, call) {
+							if lastEval == nil || instrDominates(lastEval, c2) {
+								lastEval = c2
+							}
+						}
+					}
+				}
+				good := false
+				for d := b; d != nil; d = d.Idom() {
+					id := d.Idom()
+					if id == nil || len(id.Instrs) == 0 {
+						continue
+					}
+					ifi, ok := id.Instrs[len(id.Instrs)-1].(*ssa.If)
+					if !ok || !loadsField(ifi.Cond, "Stopped") {
+						continue
+					}
+					ld := ifi.Cond.(ssa.Instruction)
+					if edgeDominates(id, 1, b) && (lastEval == nil || instrDominates(lastEval, ld)) {
+						good = true
+					}
+				}
+				if lastEval == nil {
+					good = true // nothing was evaluated between eval's own stop test and the built-in
+				}
+				r.Check(good, construct, p.Rel(instrPos(call)), "the stop flag is tested between the evaluation of the arguments and the built-in's effect",
+					"the built-in's implementation is called without a test of the stop flag after its arguments were evaluated: an argument such as `read` or `sleep` hands control to the platform, "+
+						"which may raise the flag — `print (read)` then still prints (an effect that the uninterrupted run does not have) and the run does not end with ErrStopped")
+			}
+		}
+	}
 	// Y3: error discipline
 	for _, fn := range ei.funcs {
 		n := 0
